@@ -38,9 +38,9 @@ func (c *CCommentState) NextToken(
 		str := c.GetMultiLineComment(scanner)
 		return tokenizers.NewToken(tokenizers.Comment, "/*"+str, line, column)
 	} else {
-		if !utilities.CharValidator.IsEof(secondSymbol) {
-			scanner.Unread()
-		}
+		// Put back the second read (at the end of the input it consumed
+		// the scanner's end-of-input slot)
+		scanner.Unread()
 		if !utilities.CharValidator.IsEof(firstSymbol) {
 			scanner.Unread()
 		}
